@@ -12,13 +12,20 @@ B = {"threads": ["o1", "o2", "c1", "c2"], "bounds": [1, 3],
                  "c1": [{"k": "collect"}, {"k": "collect"}], "c2": [{"k": "collect"}, {"k": "sum"}]}}
 
 
+# a local-histogram batch racing with collections (the batch must be in a snapshot entirely or not at all)
+QF = {"threads": ["f1", "c1"], "bounds": [1, 3],
+      "scripts": {"f1": [{"k": "flush", "vs": [1, 4]}, {"k": "obs", "v": 2}], "c1": [{"k": "collect"}, {"k": "collect"}]}}
+
+
 def run(ctx):
     exe = build_harness()
     stats, samples = new_stats(), []
     if ctx.quick:
         run_scenario(ctx, "C02", exe, Q, "Q", stats, samples, model=True, nrandom=150, vias=("vec", "registry"), liveness=False)
         run_scenario(ctx, "C02", exe, A, "A", stats, samples, model=False, nrandom=300, vias=("direct",), hb=True, liveness=False)
+        run_scenario(ctx, "C02", exe, QF, "QF", stats, samples, model=True, nrandom=100, vias=("direct",), liveness=False)
     else:
+        run_scenario(ctx, "C02", exe, QF, "QF", stats, samples, model=True, nrandom=2000, vias=("direct", "vec", "registry"), liveness=False)
         run_scenario(ctx, "C02", exe, Q, "Q", stats, samples, model=True, nrandom=2000, vias=("vec", "registry"), liveness=False)
         run_scenario(ctx, "C02", exe, A, "A", stats, samples, model=True, nrandom=5000, vias=("direct", "vec", "registry"), hb=True, liveness=False)
         run_scenario(ctx, "C02", exe, B, "B", stats, samples, model=False, nrandom=15000, vias=("direct", "vec", "registry"), hb=True, liveness=False)
